@@ -23,7 +23,9 @@ Whats == Commands \cup OutOfRange
 
 \* patterns: the wildcard syntax (C15) and the path syntax, well-formed and not
 PatMenu == {"*", "a", "a/*", "/*/*/*", "*/*/*/*", "[", "(a", "a,b", "~a", "<1-2>", "\\", "a\\", "`(a*)*b", "", "/", "//", "a//b", "*/..", "<",
-            "((((a))))", "[a-", "a|b", "????????", "*a*a*a*a*a*a*b"}
+            "((((a))))", "[a-", "a|b", "????????", "*a*a*a*a*a*a*b",
+            \* degenerate clauses: patterns that leave nothing to compile or to match with (they reach matchers recycled from earlier, ordinary queries)
+            "`", "~", "~`", "/*/*/`", "`/a", "<0-99999999999999999999>", "<5-", "a)", "]", "\\/\\"}
 \* archived query filters: valid ones, and damaged ones (what-code not a filter's, field missing / retyped, nested 200 deep)
 FiltMenu == {"what1", "what2", "string", "int", "and2", "and-nested3", "msgfilter", "not-a-filter", "what-retyped", "and-kid-missing", "and-kid-retyped", "nest200"}
 
@@ -66,12 +68,22 @@ CaseSet == {[what |-> w, f |-> fs] : w \in Whats, fs \in FieldSets}
 Cases == LET cs == SetToSeq(CaseSet) IN [i \in DOMAIN cs |-> [id |-> i, what |-> cs[i].what, f |-> cs[i].f]]
 
 \* the enumeration really is the product it claims to be
-ASSUME Cardinality(Whats) = 38 /\ Cardinality(PatMenu) = 24 /\ Cardinality(FiltMenu) = 12
+ASSUME Cardinality(Whats) = 38 /\ Cardinality(PatMenu) = 34 /\ Cardinality(FiltMenu) = 12
 ASSUME \A w \in Whats : \E c \in CaseSet : c.what = w /\ c.f = <<>>
 ASSUME \A n \in DOMAIN FieldVals : \A v \in FieldVals[n] : \A w \in {Base + 1, 1234} : [what |-> w, f |-> <<Fld(n, v)>>] \in CaseSet
 
+\* What every sender has done BEFORE the hostile Messages start (ordinary commands; the hostile ones then hit a tree with these shapes, and every server life ends
+\* with the removal of these nodes by one sender and the departure of the other): nodes with indexed AND plain children, a child taken out of its parent's index
+\* but kept, an index created by REORDERDATA on a plain node, an index that has become empty again
+P(op, p, x) == [pre |-> op, p |-> p, x |-> x]
+Prelude == <<P("SETDATA", "m", ""), P("INSERTORDEREDDATA", "m", "zz"), P("INSERTORDEREDDATA", "m", "I0"), P("SETDATA", "m/plain", ""), P("SETDATA", "m/plain/deep", ""),
+             P("SETDATA", "e/x", ""), P("SETDATA", "e/y", ""), P("REORDERDATA", "e/x", "zz"),
+             P("SETDATA", "r/I0", "index"), P("SETDATA", "r/I1", "index"), P("REORDERDATA", "r/I0", "!Rmv"),
+             P("SETDATA", "z/only", "index"), P("REORDERDATA", "z/only", "!Rmv")>>
+Epilogue == <<P("REMOVEDATA", "m", ""), P("REMOVEDATA", "*", "")>>      \* by the second sender; the first one simply departs
+
 VARIABLE done
-GenInit == done = (ndJsonSerialize(IOEnv.OUT, Cases) /\ PrintT("@@" \o ToJson([cases |-> Len(Cases), whats |-> Cardinality(Whats), singles |-> Cardinality(Singles),
+GenInit == done = (ndJsonSerialize(IOEnv.OUT, <<[prelude |-> Prelude, epilogue |-> Epilogue]>> \o Cases) /\ PrintT("@@" \o ToJson([cases |-> Len(Cases), whats |-> Cardinality(Whats), singles |-> Cardinality(Singles),
                                                                               fieldsets |-> Cardinality(FieldSets), patterns |-> Cardinality(PatMenu), filters |-> Cardinality(FiltMenu)])))
 GenNext == UNCHANGED done
 =============================================================================
